@@ -185,7 +185,7 @@ def query (lw : List Char → List Char) (d : Doc) (j : Json) : Except String Js
       (← getBool j "parents") (← getBool j "recursive") (← getBool j "all")))
   | _ => throw s!"unknown query {q}"
 
-def handle1 (j : Json) : Except String Json := do
+def handle (j : Json) : Except String Json := do
   let op ← getStr j "op"
   match op with
   | "tree" =>
@@ -204,18 +204,6 @@ def handle1 (j : Json) : Except String Json := do
     | "relative" => pure (jchars (relativePath a (← getStr j "b").toList))
     | _ => throw s!"unknown posix function {f}"
   | _ => throw s!"unknown op {op}"
-
-/-- `{"op": "raw", "json": "<text>"}`: the request travels as JSON text inside a string (the harness
-    keeps tens of thousands of requests in memory; a string is an order of magnitude smaller than
-    the nested Python objects). Everything else is handled as before. -/
-def handle (j : Json) : Except String Json := do
-  let op ← getStr j "op"
-  match op with
-  | "raw" =>
-    match Json.parse (← getStr j "json") with
-    | .ok inner => handle1 inner
-    | .error e => throw s!"raw: {e}"
-  | _ => handle1 j
 
 end DrvC14
 
